@@ -137,6 +137,10 @@ func (p *Subscribe) Unpack(r io.Reader) (err error) {
 			topic.NoLocal = (1 & (opts >> 2)) > 0
 			topic.RetainAsPublished = (1 & (opts >> 3)) > 0
 			topic.RetainHandling = (3 & (opts >> 4))
+			// Retain Handling 3 is a Protocol Error (MQTT 5, 3.8.3.1)
+			if topic.RetainHandling > 2 {
+				return codes.ErrProtocol
+			}
 		} else {
 			topic.Qos = opts
 			if topic.Qos > Qos2 {
